@@ -2,6 +2,7 @@
 //! See /verif/DESIGN.md.
 
 mod core;
+mod grammar_text;
 mod props;
 mod run;
 mod tape;
